@@ -112,6 +112,8 @@ class LogRun:
         exp_orbax = {}  # key -> list of (op, step, hash)
         exp_std = {}
         hash_at = {}
+        armed = False
+        cadence_valid = True
         for i, op in enumerate(p["ops"]):
             clock.op = i
             k = op[0]
@@ -159,8 +161,20 @@ class LogRun:
                         continue
                     kw = {} if st is None else {"step": st}
                     h = state_hash(modules[key])
-                    top.record_epoch(key, modules[key], **kw)
+                    injected = False
+                    try:
+                        top.record_epoch(key, modules[key], **kw)
+                    except OSError as e:
+                        if "injected" not in str(e):
+                            raise
+                        injected = True
+                        res.fault("checkpoint_write_failed")
                     epoch_n[key] = epoch_n.get(key, 0) + 1
+                    if injected:
+                        # the failed record may or may not have updated counters before raising; stop the cadence
+                        # comparison for this run and only demand that every LISTED path is restorable
+                        cadence_valid = False
+                        continue
                     if key in freq:
                         f = freq[key]
                         if eff // f > last_step[key] // f:
@@ -177,6 +191,26 @@ class LogRun:
                     else:
                         last_step[("nofreq", key)] = eff
                         res.fault("epoch_without_frequency")
+                elif k == "fail_next_save":
+                    # disk fault: the next checkpoint write of every checkpointing member raises once (ENOSPC)
+                    import errno
+
+                    for kind_m, m in members:
+                        if kind_m == "memory" or getattr(m, "checkpointer", None) is None:
+                            continue
+                        cp = m.checkpointer
+                        if getattr(cp, "_rlsim_armed", False):
+                            continue
+                        orig_save = cp.save
+
+                        def failing(*a, _cp=cp, _orig=orig_save, **kw):
+                            _cp.save = _orig
+                            _cp._rlsim_armed = False
+                            raise OSError(errno.ENOSPC, "No space left on device (injected)")
+
+                        cp.save = failing
+                        cp._rlsim_armed = True
+                    armed = True
                 elif k == "clock":
                     if op[1] == "back":
                         clock.now -= op[2]
@@ -261,6 +295,20 @@ class LogRun:
             name = type(m).__name__
             exp = exp_orbax if kind == "orbax" else exp_std
             paths_all = []
+            if not cadence_valid:
+                # after an injected write failure only "every listed path is restorable" is demanded
+                for key in sorted(getattr(m, "checkpoint_path", {})):
+                    for path in m.checkpoint_path[key]:
+                        target = make_module(0)
+                        try:
+                            if not os.path.exists(path):
+                                raise FileNotFoundError(path)
+                            ocp.StandardCheckpointer().restore(path, nnx.state(target) if kind == "orbax" else nnx.split(target)[1])
+                        except Exception as e:
+                            self.V("C20.e", name, f"{key!r}: after a failed checkpoint write the path {os.path.basename(path.rstrip('/'))} is listed but not restorable ({type(e).__name__})")
+                            return
+                        res.probe("checkpoints_restored_after_write_fault")
+                continue
             for key in sorted(set(list(exp) + list(getattr(m, "checkpoint_path", {})))):
                 got = list(m.checkpoint_path.get(key, []))
                 want = exp.get(key, [])
@@ -321,6 +369,7 @@ def make_plan(rng):
     cur = {k: 0 for k in mkeys}
     nsteps = 0
     step_style = rng.choice(["implicit", "explicit", "mixed"])
+    disk_faults = rng.random() < 0.25
     for _ in range(n):
         r = rng.random()
         if r < 0.15:
@@ -346,6 +395,8 @@ def make_plan(rng):
             n_epochs += 1
         elif r < 0.96:
             ops.append(["clock", rng.choice(["fwd", "back"]), rng.choice([0.5, 10.0, 3600.0, 1e6])])
+        elif r < 0.975 and has_ckpt and disk_faults:
+            ops.append(["fail_next_save"])
         else:
             ops.append(["define_experiment"])
     return {"loggers": loggers, "list": rng.random() < 0.3, "freq": freq, "ops": ops,
